@@ -164,7 +164,7 @@ def filename_call(expr, fr, F):
 
 
 @rule('C13.R3', 'a blob file is entered in the dirty list before it is '
-      'created in the committed namespace', min_instances=2)
+      'created in the committed namespace', props=['C06'], min_instances=2)
 def r3(R):
     sites = 0
     for q, meth in ((MIXIN, '_blob_storeblob'), (BLOBSTORAGE, 'undo')):
